@@ -288,7 +288,22 @@ func (f *Frame) execBlock(c *cursor, b *ssa.BasicBlock) {
 				firstReal = false
 			}
 		}
-		if done := f.exec(c, in); done {
+		done := f.exec(c, in)
+		if f.top && f.pendingSiteRet != "" {
+			// siteret(NAME): what the call at the site returned
+			if v, ok := in.(ssa.Value); ok {
+				if t, ok := f.vals[v]; ok {
+					if f.siteRets == nil {
+						f.siteRets = map[string]sval{}
+					}
+					for _, name := range strings.Fields(f.pendingSiteRet) {
+						f.siteRets[name] = sval{t, v.Type()}
+					}
+				}
+			}
+			f.pendingSiteRet = ""
+		}
+		if done {
 			break
 		}
 	}
@@ -1367,6 +1382,7 @@ func (f *Frame) checkAnchors(c *cursor, b *ssa.BasicBlock, idx int, in ssa.Instr
 			if f.siteStates == nil {
 				f.siteStates = map[string]*State{}
 			}
+			f.pendingSiteRet += " " + s.Name
 			f.siteStates[s.Name] = c.st.clone()
 			if f.siteLookups == nil {
 				f.siteLookups = map[string]func(string) (Term, types.Type, bool){}
